@@ -92,6 +92,8 @@ def run_case(c):
     out["asserts"] = found
     out["limits"] = [[hexf(p.lower_limit), hexf(p.upper_limit)] for p in pool]
     out["count"] = model.prior_count
+    out["upaths"] = [list(map(str, p)) for p in model.unique_prior_paths]
+    out["ids"] = [idmap.get(p.id, -1) for p in model.priors_ordered_by_id]
     out["runs"] = []
     for v in c["vectors"]:
         vec = [unhex(x) for x in v]
